@@ -124,6 +124,8 @@ def run_case(case, ctx):
             if num in (3, 7):
                 pl1 = quiet(ctx, PersLandscapeApprox, dgms=[decoy, A], hom_deg=1, num_steps=num, **kw)
                 check_grid(ctx, D, pl1, start, stop, num, "hom_deg=1 of [decoy, D]")
+                pl2 = quiet(ctx, PersLandscapeApprox, dgms=[np.zeros((0, 2)), decoy, A], hom_deg=2, num_steps=num, **kw)
+                check_grid(ctx, D, pl2, start, stop, num, "hom_deg=2 of [empty, decoy, D]")
                 # transformer == approximate landscape, bitwise (flattened on request)
                 for flatten in (False, True):
                     tr = PersistenceLandscaper(hom_deg=0, num_steps=num, flatten=flatten, **kw)
